@@ -5,6 +5,7 @@ number of error-abandoned function literals) and over every value of MaxLocalVar
 -/
 import NV.C02.LemmasLI
 import NV.C02.LemmasMem
+import NV.C02.LemmasPad
 
 namespace NV.C02
 
@@ -96,6 +97,33 @@ theorem yytext_in_bounds (pre n : Nat) (hpre : pre ≤ 1) : ∀ i ∈ scanWrites
 example : scanWrites 1 3 = [0, 1, 2, 3, 4] := by decide
 example : scanFrom savecBound.toNat 7 = [savecBound.toNat] ∧ scanFrom (savecBound.toNat - 1) 7 = [savecBound.toNat - 1, savecBound.toNat] := by
   decide
+
+/-- **scratch_writes_in_bounds** — whatever sequence of scratchpad operations the lexer and the grammar perform
+    (strings pushed by scratch_copy / scratch_alloc / scratch_copy_string / the string scanner, frees of the last
+    string with any number of already freed strings below it, reallocs, joins, interior frees, malloc'ed blocks,
+    destroys), the pad cursors stay inside `scratchblock[SCRATCHPAD_SIZE]`: `2 ≤ scr_last ≤ scr_tail ≤ SIZE - 1` (the
+    length byte is written at `scr_tail`), the strings stay stacked without gaps, and the model's bounds checks
+    never fire.  As the statement holds for every event list, it holds after every prefix, i.e. at every step. -/
+theorem scratch_writes_in_bounds (evs : List Ev) :
+    let p := (runPad Pad.init evs).1
+    p.oob = false ∧ 2 ≤ p.last ∧ p.last ≤ p.tail ∧ p.tail ≤ scratchpadSize - 1 := by
+  intro p
+  have h : PadInv p := by
+    simp only [p, runPad, runPad_fst]
+    exact runPad_inv evs Pad.init padInv_init
+  refine ⟨h.noOob, ?_, ?_, ?_⟩
+  · rw [pad_last_eq]; exact lastOf_ge_two _ h.stacked
+  · rw [pad_last_eq, pad_tail_eq]; exact lastOf_le_tailOf _
+  · rw [pad_tail_eq]; exact h.fits
+
+example : (runPad Pad.init [.scrAlloc 5, .scrAlloc 200, .scrAlloc 300, .scrFreeLast 0, .scrAlloc 3]).1.tail = 12
+    ∧ (runPad Pad.init [.scrAlloc 5, .scrAlloc 200, .scrAlloc 300]).1.large = 1 := by decide
+
+/-- **scratch_empty_after_destroy** — `scratch_destroy()` (run by epilog and clean_parser) leaves the scratchpad in
+    its initial state, whatever was on it: no strings, no malloc'ed blocks, cursors at `&scratchblock[2]`. -/
+theorem scratch_empty_after_destroy (evs : List Ev) :
+    (runPad Pad.init (evs ++ [.scrDestroy])).1 = Pad.init := by
+  simp only [runPad, runPad_fst, List.foldl_append, List.foldl_cons, List.foldl_nil, stepPad, Pad.init]
 
 /-- **idents_restored** — the "compiler stays reusable" clause at model level, for every name space of every
     identifier.  After the end-of-compile cleanup (`clean_up_locals()` + `free_unused_identifiers()`, which both `epilog`
